@@ -220,6 +220,12 @@ func RunC15Scenario(sc *Scenario) (vd *Verdict) {
 		vd.SimNS = int64(time.Since(start))
 		vd.Nontrivial = r.Stats["payloads_posted"] >= 1 && r.Stats["messages"]+r.Stats["malformed_posts"] >= 1
 	}()
+	if sc.Knob("skewNS", 0) == 1 {
+		for _, e := range []string{"http://skew.example.org/a/", "http://skew.example.org/b#", "http://skew.example.org/c/"} {
+			_, _ = r.B.Store.NamespaceManager.AssertPrefixMappingForExpansion(e)
+		}
+		r.Stats["hubs_with_different_prefix_numbers"]++
+	}
 	for _, d := range []string{"src"} {
 		var cfg *server.CreateDatasetConfig
 		if sc.Knob("publicNS", 0) == 1 {
@@ -605,6 +611,40 @@ func (r *C15Run) readback(op *Op) *Violation {
 	kind := op.S // entities | changes | latest
 	var got []string
 	token := ""
+	if kind != "latest" {
+		// another client reads the same collection as JSON-LD first; the context handed out afterwards is the
+		// hub's own: numbered prefixes, every expansion once
+		p := "/datasets/src/entities"
+		if kind == "changes" {
+			p = "/datasets/src/changes"
+		}
+		code, _ := r.A.Do("GET", p+"?limit=1", map[string]string{"Accept": "application/ld+json"}, nil)
+		r.Stats["jsonld_reads"]++
+		if code != 200 {
+			return viol("C15", "readback", fmt.Sprintf("jsonld-read-rejected:%d", code), "GET %s as application/ld+json was answered %d", p, code)
+		}
+		code, body := r.A.Do("GET", "/namespaces", nil, nil)
+		var nsm map[string]string
+		if code == 200 && json.Unmarshal(body, &nsm) == nil {
+			seen := map[string]string{}
+			for _, pfx := range sortedKeys(nsm) {
+				ok := strings.HasPrefix(pfx, "ns") && len(pfx) > 2
+				for _, ch := range pfx[min(2, len(pfx)):] {
+					if ch < '0' || ch > '9' {
+						ok = false
+					}
+				}
+				if !ok {
+					return viol("C15", "readback", "context-with-foreign-prefix", "after a JSON-LD read GET /namespaces lists prefix %q -> %q, which the hub never handed out", pfx, nsm[pfx])
+				}
+				if q, dup := seen[nsm[pfx]]; dup {
+					return viol("C15", "readback", "context-with-two-prefixes-for-one-expansion", "after a JSON-LD read GET /namespaces lists %q under both %s and %s", nsm[pfx], q, pfx)
+				}
+				seen[nsm[pfx]] = pfx
+			}
+			r.Stats["namespace_listings_checked"]++
+		}
+	}
 	for page := 0; page < 1500; page++ {
 		path := "/datasets/src/entities"
 		q := []string{}
